@@ -90,8 +90,8 @@ NT = {
 }
 
 for _pid, _q, _t in (('C01', 12000, 120000), ('C06', 15000, 150000), ('C07', 12000, 120000), ('C12', 12000, 120000),
-                     ('C19', 12000, 120000), ('C04', 8000, 60000), ('C10', 2400, 30000), ('C11', 3000, 30000),
-                     ('C13', 2000, 20000), ('C14', 2500, 25000), ('C15', 8000, 80000), ('C16', 3000, 30000),
+                     ('C19', 12000, 120000), ('C04', 8000, 60000), ('C10', 1900, 30000), ('C11', 2300, 30000),
+                     ('C13', 1500, 20000), ('C14', 2500, 25000), ('C15', 8000, 80000), ('C16', 3000, 30000),
                      ('C18', 8000, 80000)):
     reg(Prop(_pid, {'quick': _q, 'thorough': _t}, {'quick': 100, 'thorough': 1500},
              NT[_pid][1] if _pid in NT else RULE_HIST, nontrivial=NT[_pid][0] if _pid in NT else nt_structure,
